@@ -39,7 +39,7 @@ impl Prop for C06 {
 
     fn assumptions(&self) -> Vec<String> {
         vec![
-            "the polling-reader race is sampled (about one case in eight: 40..300 reloads against two polling watchers and two guard-holding readers)".into(),
+            "the polling-reader race is sampled (about one case in eight: 40..300 reloads against two polling watchers and two guard-holding readers, then 200..1500 rewrites against 2..3 concurrent pollers of reloaded_global(): at most one true per rewrite in total)".into(),
             "in enhance_hot_reloading mode passes cannot be delimited from outside: the exact once-per-rewrite count is checked in hot_reload() mode only".into(),
         ]
     }
@@ -89,6 +89,11 @@ impl Prop for C06 {
                 // the racing reader: after the k-th true from a polling ReloadWatcher the value read is at least the k-th version
                 if let Some((sig, what)) = super::c07::watcher_race(step.order, (step.order % 2) as u8) {
                     out.fail(format!("racing-reader:{sig}"), format!("polling reader against {} reloads: {what}", step.order));
+                    return out;
+                }
+                // several pollers of the global flag: each rewrite is reported at most once in total
+                if let Some((sig, what)) = super::c07::global_flag_pollers(step.order.saturating_mul(5), 2 + (step.order % 2) as u8) {
+                    out.fail(format!("racing-reader:{sig}"), what);
                     return out;
                 }
                 out.nontrivial = true;
